@@ -17,6 +17,8 @@ if os.environ.get("PYTHONHASHSEED") != "0":
 import warnings
 
 warnings.simplefilter("ignore")
+if os.environ.get("VERIF_REPO"):  # mutation experiments on a scratch worktree (never set by registered commands)
+    sys.path.insert(0, os.path.realpath(os.environ["VERIF_REPO"]))
 
 
 def main():
